@@ -578,6 +578,258 @@ def _run_scale(ctx):
              "superset / subset clauses are judged")
 
 
+# ---------------------------------------------------------------------------------------------------------------------
+# anisotropic integer family (graham_scan): INTEGER dtype AND a coordinate spread so large along ONE axis that squared
+# lengths leave the dtype while every orientation determinant still fits it AND collinear runs through the pivot
+# ---------------------------------------------------------------------------------------------------------------------
+# Every set satisfies 2 * (x range) * (y range) < iinfo(dtype).max / 4 (asserted in python integers): each difference,
+# product and determinant of the orientation test is exact in the array's own integer dtype (and in the harness's int64
+# tables).  The long side exceeds sqrt(iinfo.max) by a factor >= 1.5, so squared distances do NOT fit the dtype.
+# Collinear runs are lattice multiples t * step (t <= 64 resp. 4n): their distances from the pivot differ by a relative
+# 1/(4n) at least - far from any rounding tie of a float norm.  Judged by Trace_HullScale exactly like the scale sets.
+ANISO_SHAPES = ("ray", "abox", "fan", "aline", "gptall")
+ANISO_LIM = {"m32": 2 ** 31 - 1, "m64": 2 ** 63 - 1}
+ANISO_WRAP = {"m32": 46341, "m64": 3037000500}                 # ceil(sqrt(iinfo.max))
+ANISO_DTYPES = {"m32": ("i32", "i64", "f64"), "m64": ("i64",)}  # f64 / i64 of an int32-sized set: exact controls
+ANISO_NP = {"i32": np.int32, "i64": np.int64, "f64": np.float64}
+
+
+def _aniso(shape, n, seed, orient, mag):
+    """about n DISTINCT integer points (python-int exact, returned as int64 arrays, shuffled) of one of ANISO_SHAPES;
+    orient 'tall': y range >> x range, 'wide': x range >> y range.  Returns (X, Y, general)."""
+    import math
+    import random
+    rng = random.Random("aniso/%s/%d/%d/%s/%s" % (shape, n, seed, orient, mag))
+    lim, wrap = ANISO_LIM[mag], ANISO_WRAP[mag]
+    A = lim // 32
+    T = rng.choice((4, 6, 8, 16))
+    S = rng.choice((1, 2, 3, 3, 10, 100, 400))
+    if shape == "gptall":
+        n = min(n, 400 if mag == "m32" else n)
+        S = max(2, n - 1)
+    s_eff = max(S, T) if shape == "fan" else S
+    lo, hi = (3 * wrap) // 2, A // (2 * s_eff)
+    assert hi >= lo, (shape, n, mag, S)
+    L = int(math.exp(rng.uniform(math.log(lo), math.log(hi))))
+    L = max(T, T * (L // T))
+    general = False
+    pts = []                                 # canonical frame 'tall' unless said otherwise; swapped below for 'wide'
+    swap = orient == "wide"
+    if shape == "ray":
+        # pivot (0, 0); a run of k >= 3 lattice points on the FIRST ray (direction d), everything else strictly clockwise
+        if not swap:
+            d = (rng.randint(0, S // T), L // T)
+        else:
+            d = (L // T, rng.randint(0, S // T))
+        k = min(T, rng.randint(3, 6))
+        pts = [(0, 0)] + [(t * d[0], t * d[1]) for t in rng.sample(range(1, T + 1), k)]
+        others = max(3, n - 1 - k)
+        for _ in range(4 * others):
+            q = (rng.randint(1, S), rng.randint(-L, L)) if not swap else (rng.randint(1, L), rng.randint(-S, S))
+            if d[0] * q[1] - q[0] * d[1] < 0 and len(pts) < 1 + k + others:
+                pts.append(q)
+        swap = False                         # built directly in its orientation
+    elif shape == "abox":
+        # box S x L: lattice runs on the two long sides, a few points on the short sides, most corners, random interior
+        step = L // T
+        for cx, cy in ((0, 0), (0, L), (S, 0), (S, L)):
+            if rng.random() < 0.75:
+                pts.append((cx, cy))
+        for sx in (0, S):
+            pts += [(sx, t * step) for t in rng.sample(range(1, T), min(T - 1, rng.randint(3, 6)))]
+        if S >= 2:
+            for sy in (0, L):
+                pts += [(x, sy) for x in rng.sample(range(1, S), min(S - 1, rng.randint(1, 5)))]
+            pts += [(rng.randint(1, S - 1), rng.randint(1, L - 1)) for _ in range(max(0, n - len(pts)))]
+    elif shape == "fan":
+        # every point on one of R rays from the pivot (0, 0): runs on the first, the middle and the last ray
+        sa = max(1, S // T)
+        R = max(3, min(n // 4, 40))
+        dirs = set()
+        if rng.random() < 0.5:
+            dirs.add((0, L // T))
+        for _ in range(R):
+            dirs.add((rng.randint(1, sa), rng.choice((-1, 1)) * rng.randint(1, L // T)))
+        pts = [(0, 0)]
+        for d in sorted(dirs):
+            pts += [(t * d[0], t * d[1]) for t in rng.sample(range(1, T + 1), min(T, rng.randint(2, 6)))]
+    elif shape == "aline":
+        # fully collinear set along the long axis (or one lattice step off it for short sets)
+        Tn = 4 * n
+        a = rng.choice((0, 1)) if n <= 64 else 0
+        b = max(1, min(L, A // (2 * max(1, a * Tn))) // Tn)
+        ox = rng.randint(0, S)
+        pts = [(ox + a * t, b * t) for t in rng.sample(range(0, Tn + 1), n)]
+    elif shape == "gptall":
+        # (i, c * (i^2 mod p)): no three collinear (a line meets the parabola mod p twice at most; scaling y keeps that)
+        p = _next_prime(n)
+        c = max(1, L // p)
+        pts = [(i, c * ((i * i) % p)) for i in range(n)]
+        general = True
+    else:
+        raise ValueError(shape)
+    if swap:
+        pts = [(y, x) for x, y in pts]
+    mx, my = rng.choice(((1, 1), (1, 1), (1, 1), (-1, 1), (1, -1), (-1, -1)))
+    off = (0, 0) if rng.random() < 0.5 else (rng.randint(-(lim // 4), lim // 4), rng.randint(-(lim // 4), lim // 4))
+    pts = sorted(set((mx * x + off[0], my * y + off[1]) for x, y in pts))
+    rng.shuffle(pts)
+    assert len(pts) >= 3, (shape, n, seed, orient, mag)
+    xs, ys = [p[0] for p in pts], [p[1] for p in pts]
+    xr, yr = max(xs) - min(xs), max(ys) - min(ys)
+    # every determinant |t1 - t2| <= 2 xr yr fits the dtype with a 4x margin; so does every coordinate
+    assert 2 * xr * yr < lim // 4 and max(map(abs, xs + ys)) < lim // 2, (shape, n, seed, orient, mag, xr, yr)
+    return np.array(xs, dtype=np.int64), np.array(ys, dtype=np.int64), general
+
+
+def _aniso_input(item):
+    cid, kind, shape, n, seed, mode, orient, mag, dtype = item
+    x, y, general = _aniso(shape, n, seed, orient, mag)
+    P = np.ascontiguousarray(np.column_stack([x, y])).astype(ANISO_NP[dtype])
+    assert np.array_equal(P.astype(np.int64), np.column_stack([x, y]))
+    return P, x, y, general
+
+
+def _first_ray(x, y):
+    """(number of points collinear with the pivot on the first clockwise hull edge, squared length of that edge)"""
+    ccw = _exact_planar_hull(x, y)
+    xs, ys = x.tolist(), y.tolist()
+    p, v = ccw[0], ccw[-1]
+    run = sum(1 for k in range(len(xs)) if k != p and _cross(xs[p], ys[p], xs[v], ys[v], xs[k], ys[k]) == 0
+              and (xs[k] - xs[p]) * (xs[v] - xs[p]) + (ys[k] - ys[p]) * (ys[v] - ys[p]) > 0)
+    return run, (xs[v] - xs[p]) ** 2 + (ys[v] - ys[p]) ** 2
+
+
+def _aniso_case(item):
+    import kneeliverse.convex_hull as ch
+    from harness import monitor
+    cid, kind, shape, n, seed, mode, orient, mag, dtype = item
+    P, x, y, general = _aniso_input(item)
+    P0 = P.copy()
+    out, val, counts = monitor.call(ch.graham_scan, (P,), budget=monitor.quad(len(P), 16), wall=300)
+    got = []
+    if out == "returned":
+        try:
+            arr = np.asarray(val)
+            if arr.ndim != 1 or (arr.size and arr.dtype.kind not in "iu"):
+                out = "returned-not-an-index-array:%s%s" % (arr.dtype, list(arr.shape))
+            else:
+                got = [int(v) for v in arr.tolist()]
+        except Exception as ex:
+            out = "returned-not-an-index-array:" + type(ex).__name__
+    elif out.startswith("raised"):
+        out = out + ":" + str(val)[:120]
+    rec = _encode_graham(cid, x, y, general, out, got)
+    run, d2 = _first_ray(x, y)
+    info = {"n": len(x), "len": len(got), "head": got[:6], "tail": got[-6:],
+            "nontrivial": bool(out == "returned" and (rec["n_ext"] < len(x) or (general and len(x) >= 4))),
+            "back_edges": int(sum(counts.values())), "first_ray_run": run,
+            "first_ray_overflows": bool(dtype != "f64" and d2 > np.iinfo(ANISO_NP[dtype]).max),
+            "xrange": int(x.max() - x.min()), "yrange": int(y.max() - y.min()),
+            "input_mutated": bool(P.shape != P0.shape or not np.array_equal(P, P0))}
+    return rec, info
+
+
+def _aniso_items(ctx):
+    sizes = [5, 8, 16, 40, 120, 400, 1500] + ([] if ctx.quick else [3000, 6000])
+    r = ctx.rng
+    items = []
+    for n in sizes:
+        for shape in ANISO_SHAPES:
+            for orient in ("tall", "wide"):
+                reps = 1 if ctx.quick else 3
+                for _ in range(reps):
+                    combos = [("m32", "i32"), ("m64", "i64")]
+                    if not ctx.quick or r.randrange(3) == 0:
+                        combos.append(("m32", r.choice(("i64", "f64"))))      # same magnitudes, a dtype that holds the squares
+                    for mag, dtype in combos:
+                        items.append(["A%d" % len(items), "aniso", shape, n, r.randrange(10 ** 6), "graham", orient, mag, dtype])
+    return sizes, items
+
+
+_BX = np.array([0, 0, 0, 0, 300, 500, 400], dtype=np.int64)           # int32-sized: 70000^2 > 2^31, determinants < 2^27
+_BY = np.array([0, 40000, 50000, 70000, 60000, 20000, -10000], dtype=np.int64)
+
+
+def _aniso_selftests():
+    return [(_encode_graham("s", _BX, _BY, False, "returned", [0, 1, 3, 4, 5, 6]), "ok"),
+            (_encode_graham("s", _BX, _BY, False, "returned", [0, 3, 4, 5, 6]), "ok"),
+            (_encode_graham("s", _BX, _BY, False, "returned", [0, 1, 4, 5, 6]), "graham-contains-extremes"),
+            (_encode_graham("s", _BX + 2 ** 40, _BY * 60000 - 2 ** 50, False, "returned", [0, 2, 4, 5, 6]), "graham-contains-extremes"),
+            (_encode_graham("s", _BX + 2 ** 40, _BY * 60000 - 2 ** 50, False, "returned", [0, 2, 3, 4, 5, 6]), "ok"),
+            (_encode_graham("s", _BX, _BY, False, "raised:IndexError", []), "completes")] + _scale_selftests()[8:]
+
+
+def _aniso_detail(item, info, verdict):
+    cid, kind, shape, n, seed, mode, orient, mag, dtype = item
+    d = {"verdict": [str(v)[:200] for v in verdict], "shape": shape, "n": info["n"], "mode": mode,
+         "options": {"orient": orient, "magnitude": mag, "dtype": dtype},
+         "xrange": info["xrange"], "yrange": info["yrange"], "first_ray_run": info["first_ray_run"],
+         "first_ray_squared_length_overflows_dtype": info["first_ray_overflows"],
+         "got_len": info["len"], "got_head": info["head"], "got_tail": info["tail"]}
+    try:
+        P, x, y, general = _aniso_input(item)
+        ccw = _exact_planar_hull(x, y)
+        cw = [ccw[0]] + ccw[:0:-1]
+        d["n_extreme"] = len(ccw)
+        d["extreme_clockwise_head"] = cw[:8]
+        d["extreme_points_head"] = [[int(x[k]), int(y[k])] for k in cw[:8]]
+        if info["n"] <= 12:
+            d["points"] = [[int(a), int(b)] for a, b in zip(x, y)]
+    except Exception as ex:
+        d["diagnostics_failed"] = repr(ex)[:200]
+    return d
+
+
+def _run_aniso(ctx):
+    import json
+    import time
+    from harness import monitor
+    t0 = time.time()
+    sizes, items = _aniso_items(ctx)
+    order = sorted(range(len(items)), key=lambda k: -items[k][3])
+    res = par.pmap(_aniso_case, [items[k] for k in order], chunksize=1)
+    recs = [None] * len(items)
+    for k, r in zip(order, res):
+        recs[k] = r
+    t1 = time.time()
+    rej = ctx.trace("Trace_HullScale", [r for r, _ in recs], selftest=_aniso_selftests(), chunk=250)
+    t2 = time.time()
+    by = {it[0]: it for it in items}
+    infos = {it[0]: info for it, (_, info) in zip(items, recs)}
+    shapes, nbytes, margin, combo = {}, 0, 0.0, {}
+    for it, (rec, info) in zip(items, recs):
+        ctx.count(("A", it[1:]), info["nontrivial"])
+        key = "%s/%s/%s" % (it[2], it[6], it[8])
+        shapes[key] = shapes.get(key, 0) + 1
+        nbytes += len(json.dumps(rec))
+        margin = max(margin, info["back_edges"] / float(monitor.quad(info["n"], 16)))
+        if info["first_ray_run"] >= 3 and info["first_ray_overflows"]:
+            combo[it[8]] = combo.get(it[8], 0) + 1
+        if info["input_mutated"]:
+            ctx.note("anisotropic: graham_scan modified its argument (n=%d, %s) - owned by C20, not judged here" % (info["n"], it[2]))
+    if min(combo.get("i32", 0), combo.get("i64", 0)) < 5:
+        ctx.note("VACUOUS-FAMILY (what the family was built to reach did not occur in this run; a note, not a failure: see DESIGN 11.8): %s" % (combo,)); ctx.extra.setdefault("family_vacuous", True)
+    seen = {}
+    for cid, vs in rej.items():
+        clause = vs[0][0]
+        if clause == "malformed-record":
+            from harness.main import Machinery
+            raise Machinery("Trace_HullScale: the recorder produced a malformed record for %s: %s" % (by[cid], vs))
+        k = (clause, by[cid][8])
+        seen[k] = seen.get(k, 0) + 1
+        if seen[k] <= 3:
+            ctx.violation(clause, {"kind": "A", "aniso": by[cid]}, _aniso_detail(by[cid], infos[cid], vs[0]))
+    ctx.extra["anisotropic"] = {"sizes": sizes, "cases": len(items), "cases_by_shape_orient_dtype": shapes,
+                                "sets_with_overflowing_first_ray_run_of_3_or_more": combo,
+                                "json_bytes_to_tlc": nbytes, "largest_fraction_of_loop_budget_used": round(margin, 6),
+                                "rejected_by_clause": {"%s/%s" % k: v for k, v in seen.items()},
+                                "wall_s": {"replay": round(t1 - t0, 1), "tlc": round(t2 - t1, 1)}}
+    big = next(k for k in range(len(items)) if items[k][2] == "ray" and items[k][8] == "i32" and infos[items[k][0]]["n"] <= 16)
+    ctx.sample({"binding": "T-anisotropic", "item": items[big], "record": recs[big][0],
+                "points": _aniso_input(items[big])[0].tolist()})
+
+
 def run(ctx):
     ctx.rule = ("TLC enumerates every grid curve (n<=NMax, y in 0..YMax, 3 spacing patterns) for the lower/upper "
                 "chains and every SetMin..SetMax-point subset of the grid for graham_scan, checks the machines against "
@@ -587,13 +839,21 @@ def run(ctx):
                 "right end, noise ...) and point sets of 5 shapes (general position, box with collinear sides, disc, convex "
                 "position, fully collinear) with 200 .. 110000 points (sizes straddling 2^8 .. 2^16, 10^4, 10^5), float64 / "
                 "int64 / 2^-20-scaled, are replayed into the three routines under a quadratic loop budget; Trace_HullScale "
-                "judges the same clauses from sparse exact cross-product sign tables (run-length coded)")
+                "judges the same clauses from sparse exact cross-product sign tables (run-length coded).  "
+                "anisotropic family: integer point sets (int32 and int64 arrays, plus int64 / float64 controls of the int32-sized "
+                "sets) of 5 shapes (a collinear lattice run on the first ray from the pivot, box with runs on its sides, fan of rays, "
+                "fully collinear, general position) with 5 .. 1500 (thorough 6000) points whose long axis (y for 'tall', x for "
+                "'wide') exceeds sqrt(iinfo.max) while 2*(x range)*(y range) < iinfo.max/4, mirrored / translated / shuffled, are "
+                "replayed into graham_scan and judged by Trace_HullScale against the exact python-integer hull")
     ctx.assumptions += ["coordinates are small integers, so the orientation predicate is exact in binary64",
                         "graham_scan start vertex: lexicographic (x,y) minimum as in the code; a rotation starting at the (y,x) minimum is tolerated",
                         "every behaviour is also replayed scaled by 2^-20 and by 2^20 (+3*2^20 translation): exact in binary64, same hull",
                         "scale family: integer coordinates with (x range)*(y range) < 2^52, so every orientation test is exact in "
                         "binary64 and in int64 at any size: no tolerance, the exact hull is demanded; the sign tables sent to TLC are "
-                        "computed in int64 / python integers by the harness (trusted, like the recorder)"]
+                        "computed in int64 / python integers by the harness (trusted, like the recorder)",
+                        "anisotropic family: every difference, product and determinant of the orientation test fits the array's "
+                        "integer dtype with a 4x margin (asserted per set in python integers), squared lengths do not; collinear runs "
+                        "are lattice multiples, so their distances from the pivot differ by a relative 1/(4n) at least (no float tie)"]
     ctx.mc("Hull", "MC_Hull_unguarded", expect="NoUnderflow")
     ctx.mc("Hull", "MC_Hull_small", need_actions=("ChainPop", "ChainPush", "GrahamSort", "GrahamPop", "GrahamPush", "Return"))
     beh = ctx.gen("Hull", "Gen_Hull_quick" if ctx.quick else "Gen_Hull_thorough", timeout=3000)
@@ -632,6 +892,8 @@ def run(ctx):
     ctx.sample({"binding": "G", "behaviour": next(b for b in beh if b["mode"] == "graham" and len(b["pts"]) == 5 and not b["general"])})
     # ---- T: production-size inputs
     _run_scale(ctx)
+    # ---- T: anisotropic integer point sets (integer dtype x magnitude beyond sqrt(iinfo.max) x collinear runs)
+    _run_aniso(ctx)
 
 
 def replay(ctx, obj):
@@ -641,6 +903,13 @@ def replay(ctx, obj):
         rej = ctx.trace("Trace_HullScale", [rec])
         for cid, vs in rej.items():
             ctx.violation(vs[0][0], obj["case"], _scale_detail(item, info, vs[0]))
+        return
+    if obj["case"].get("kind") == "A":
+        item = list(obj["case"]["aniso"])
+        rec, info = _aniso_case(item)
+        rej = ctx.trace("Trace_HullScale", [rec])
+        for cid, vs in rej.items():
+            ctx.violation(vs[0][0], obj["case"], _aniso_detail(item, info, vs[0]))
         return
     if obj["case"].get("kind") == "Tlong":
         c, m = _record_long(tuple(obj["case"]["long"]))
